@@ -10,6 +10,7 @@
 #include "algos.h"
 #include "iterators.h"
 #include "spec.h"
+#include "faces.h"
 
 /* allocator shim (library is built with -DH3_ALLOC_PREFIX=h3v_) */
 static long h3v_fail_at = -1, h3v_count = 0, h3v_live = 0;
